@@ -24,8 +24,9 @@
    Classification (judgement call, notes/evloop.md): an item is IMMEDIATE when its due time is not
    after the clock at which it is submitted, i.e. at Lin(schedule) (schedule(), schedule_relative(d <= 0),
    schedule_absolute(t <= now)), TIMED otherwise.  In recorded traces the clock cannot move during a
-   call (controlled clock), so this is also the clock of the call event.  Order between an immediate and a timed item, and
-   between timed items with equal due time, is not constrained (the statement is silent).           *)
+   call (controlled clock), so this is also the clock of the call event.  Order: FIFO among immediate items,
+   due order among timed items, and due order ACROSS the classes (see OrderOK); equal due times among
+   timed items and across the classes are not constrained (the statement is silent).                 *)
 EXTENDS Integers, Sequences, FiniteSets, TLC
 
 CONSTANTS Clients,      \* client thread ids (1..9)
@@ -48,6 +49,7 @@ VARIABLES now,        \* the scheduler clock
           ist,        \* item -> "new" | "pending" | "refused" | "cancelled" | "committed" | "running" | "done"
           due,        \* item -> due time
           imm,        \* item -> immediately due when scheduled
+          eff,        \* item -> clock at which it was submitted (Lin(schedule))
           seq,        \* item -> stamp of Lin(schedule)        (0 = none)
           cseq,       \* item -> stamp of Commit               (0 = none)
           stamp,      \* common counter for seq and cseq
@@ -66,11 +68,11 @@ VARIABLES now,        \* the scheduler clock
           late,       \* items whose schedule call began after a dispose() had returned
           calls
 
-vars == <<now, xie, ist, due, imm, seq, cseq, stamp, loopT, alive, ever, disposed, dispRet, pend, handle,
+vars == <<now, xie, ist, due, imm, eff, seq, cseq, stamp, loopT, alive, ever, disposed, dispRet, pend, handle,
           runTh, startT, gen, early, late, calls>>
 
 Init == /\ now = 0 /\ xie \in ExitModes
-        /\ ist = [x \in Items |-> "new"] /\ due = [x \in Items |-> 0] /\ imm = [x \in Items |-> FALSE]
+        /\ ist = [x \in Items |-> "new"] /\ due = [x \in Items |-> 0] /\ imm = [x \in Items |-> FALSE] /\ eff = [x \in Items |-> 0]
         /\ seq = [x \in Items |-> 0] /\ cseq = [x \in Items |-> 0] /\ stamp = 0
         /\ loopT = None /\ alive = {} /\ ever = {} /\ disposed = FALSE /\ dispRet = FALSE
         /\ pend = [t \in Threads |-> NoCall] /\ handle = {}
@@ -89,7 +91,7 @@ Call(th, op, x, d) ==
     /\ pend' = [pend EXCEPT ![th] = [op |-> op, item |-> x, d |-> d, t0 |-> now, lin |-> FALSE, res |-> "-", after |-> dispRet]]
     /\ late' = IF IsSched(op) /\ dispRet THEN late \cup {x} ELSE late
     /\ calls' = calls + 1
-    /\ UNCHANGED <<now, xie, ist, due, imm, seq, cseq, stamp, loopT, alive, ever, disposed, dispRet, handle,
+    /\ UNCHANGED <<now, xie, ist, due, imm, eff, seq, cseq, stamp, loopT, alive, ever, disposed, dispRet, handle,
                    runTh, startT, gen, early>>
 
 DueOf(p) == CASE p.op = "imm" -> p.t0
@@ -103,11 +105,12 @@ LinSched(th) ==
        \/ /\ disposed                            \* refused: DisposedException
           /\ pend' = [pend EXCEPT ![th].lin = TRUE, ![th].res = "disposed"]
           /\ ist' = [ist EXCEPT ![x] = "refused"]
-          /\ UNCHANGED <<due, imm, seq, stamp, loopT>>
+          /\ UNCHANGED <<due, imm, eff, seq, stamp, loopT>>
        \/ /\ ~p.after                            \* accepted; never for a call that began after dispose() returned
           /\ pend' = [pend EXCEPT ![th].lin = TRUE, ![th].res = "ok"]
           /\ ist' = [ist EXCEPT ![x] = "pending"]
           /\ due' = [due EXCEPT ![x] = DueOf(p)]
+          /\ eff' = [eff EXCEPT ![x] = now]
           /\ imm' = [imm EXCEPT ![x] = (DueOf(p) <= now)]       \* due when submitted (= at the call, see the header)
           /\ seq' = [seq EXCEPT ![x] = stamp + 1] /\ stamp' = stamp + 1
           /\ loopT' = IF loopT = None THEN Starting ELSE loopT      \* no thread: this call starts one
@@ -118,7 +121,7 @@ LinCancel(th) ==
     /\ pend[th].op = "cancel" /\ ~pend[th].lin
     /\ pend' = [pend EXCEPT ![th].lin = TRUE, ![th].res = "ok"]
     /\ ist' = [ist EXCEPT ![pend[th].item] = IF @ = "pending" THEN "cancelled" ELSE @]
-    /\ UNCHANGED <<now, xie, due, imm, seq, cseq, stamp, loopT, alive, ever, disposed, dispRet, handle,
+    /\ UNCHANGED <<now, xie, due, imm, eff, seq, cseq, stamp, loopT, alive, ever, disposed, dispRet, handle,
                    runTh, startT, gen, early, late, calls>>
 
 \* scheduler.dispose()
@@ -126,7 +129,7 @@ LinDispose(th) ==
     /\ pend[th].op = "dispose" /\ ~pend[th].lin
     /\ pend' = [pend EXCEPT ![th].lin = TRUE, ![th].res = "ok"]
     /\ disposed' = TRUE
-    /\ UNCHANGED <<now, xie, ist, due, imm, seq, cseq, stamp, loopT, alive, ever, dispRet, handle,
+    /\ UNCHANGED <<now, xie, ist, due, imm, eff, seq, cseq, stamp, loopT, alive, ever, dispRet, handle,
                    runTh, startT, gen, early, late, calls>>
 
 Lin(th) == LinSched(th) \/ LinCancel(th) \/ LinDispose(th)
@@ -137,19 +140,26 @@ Ret(th) ==
     /\ dispRet' = (dispRet \/ pend[th].op = "dispose")
     /\ handle' = IF IsSched(pend[th].op) /\ pend[th].res = "ok" THEN handle \cup {pend[th].item} ELSE handle
     /\ early' = IF pend[th].op = "cancel" /\ ~Picked(pend[th].item) THEN early \cup {pend[th].item} ELSE early
-    /\ UNCHANGED <<now, xie, ist, due, imm, seq, cseq, stamp, loopT, alive, ever, disposed,
+    /\ UNCHANGED <<now, xie, ist, due, imm, eff, seq, cseq, stamp, loopT, alive, ever, disposed,
                    runTh, startT, gen, late, calls>>
 
 (* ---- the loop thread -------------------------------------------------------------------------- *)
 TStart(w) ==
     /\ loopT = Starting /\ w \notin ever
     /\ loopT' = w /\ alive' = alive \cup {w} /\ ever' = ever \cup {w}
-    /\ UNCHANGED <<now, xie, ist, due, imm, seq, cseq, stamp, disposed, dispRet, pend, handle,
+    /\ UNCHANGED <<now, xie, ist, due, imm, eff, seq, cseq, stamp, disposed, dispRet, pend, handle,
                    runTh, startT, gen, early, late, calls>>
 
-\* what the statement says about order: FIFO among immediate items, due order among timed ones
-OrderOK(x) == IF imm[x] THEN \A y \in Pending : imm[y] => seq[y] >= seq[x]
-                        ELSE \A y \in Pending : ~imm[y] => due[y] >= due[x]
+\* what the statement says about order: FIFO among immediate items, due order among timed ones, and - "timed actions
+\* in due-time order" read across the two classes -
+\*   a timed item y does not overtake an immediate item that was submitted (at clock eff) before y's due time,
+\*   an immediate item x does not overtake a timed item that is due before x.
+\* (An immediate item with a due time in the past - schedule_absolute(t < now) - is compared by its submission clock in the
+\*  first rule: it may arrive after the loop has already picked up everything due; equal times across the classes are free.)
+OrderOK(x) == IF imm[x] THEN /\ \A y \in Pending : imm[y] => seq[y] >= seq[x]
+                             /\ \A y \in Pending : ~imm[y] => due[y] >= due[x]
+                        ELSE /\ \A y \in Pending : ~imm[y] => due[y] >= due[x]
+                             /\ \A y \in Pending : imm[y] => eff[y] >= due[x]
 
 Commit(w, x) ==
     /\ loopT = w /\ w \in alive
@@ -159,7 +169,7 @@ Commit(w, x) ==
     /\ OrderOK(x)
     /\ ist' = [ist EXCEPT ![x] = "committed"]
     /\ cseq' = [cseq EXCEPT ![x] = stamp + 1] /\ stamp' = stamp + 1
-    /\ UNCHANGED <<now, xie, due, imm, seq, loopT, alive, ever, disposed, dispRet, pend, handle,
+    /\ UNCHANGED <<now, xie, due, imm, eff, seq, loopT, alive, ever, disposed, dispRet, pend, handle,
                    runTh, startT, gen, early, late, calls>>
 
 Start(w, x) ==
@@ -167,13 +177,13 @@ Start(w, x) ==
     /\ ist' = [ist EXCEPT ![x] = "running"]
     /\ runTh' = [runTh EXCEPT ![x] = w] /\ startT' = [startT EXCEPT ![x] = now]
     /\ gen' = [gen EXCEPT ![x] = Cardinality(ever)]
-    /\ UNCHANGED <<now, xie, due, imm, seq, cseq, stamp, loopT, alive, ever, disposed, dispRet, pend, handle,
+    /\ UNCHANGED <<now, xie, due, imm, eff, seq, cseq, stamp, loopT, alive, ever, disposed, dispRet, pend, handle,
                    early, late, calls>>
 
 End(w, x) ==
     /\ ist[x] = "running" /\ runTh[x] = w /\ pend[w] = NoCall
     /\ ist' = [ist EXCEPT ![x] = "done"]
-    /\ UNCHANGED <<now, xie, due, imm, seq, cseq, stamp, loopT, alive, ever, disposed, dispRet, pend, handle,
+    /\ UNCHANGED <<now, xie, due, imm, eff, seq, cseq, stamp, loopT, alive, ever, disposed, dispRet, pend, handle,
                    runTh, startT, gen, early, late, calls>>
 
 \* exit_if_empty: the silent decision to leave (under the scheduler's lock in the code)
@@ -182,7 +192,7 @@ ExitL(w) ==
     /\ Committed = {} /\ Running = {}
     /\ Pending = {}                            \* only with nothing pending
     /\ loopT' = None
-    /\ UNCHANGED <<now, xie, ist, due, imm, seq, cseq, stamp, alive, ever, disposed, dispRet, pend, handle,
+    /\ UNCHANGED <<now, xie, ist, due, imm, eff, seq, cseq, stamp, alive, ever, disposed, dispRet, pend, handle,
                    runTh, startT, gen, early, late, calls>>
 
 \* the thread function returns: after ExitL, or because the scheduler is disposed
@@ -190,11 +200,11 @@ TExit(w) ==
     /\ w \in alive /\ pend[w] = NoCall
     /\ loopT # w \/ (disposed /\ Committed = {} /\ Running = {})
     /\ alive' = alive \ {w}
-    /\ UNCHANGED <<now, xie, ist, due, imm, seq, cseq, stamp, loopT, ever, disposed, dispRet, pend, handle,
+    /\ UNCHANGED <<now, xie, ist, due, imm, eff, seq, cseq, stamp, loopT, ever, disposed, dispRet, pend, handle,
                    runTh, startT, gen, early, late, calls>>
 
 Tick == /\ now < MaxT /\ now' = now + 1
-        /\ UNCHANGED <<xie, ist, due, imm, seq, cseq, stamp, loopT, alive, ever, disposed, dispRet, pend, handle,
+        /\ UNCHANGED <<xie, ist, due, imm, eff, seq, cseq, stamp, loopT, alive, ever, disposed, dispRet, pend, handle,
                        runTh, startT, gen, early, late, calls>>
 
 (* ---- generator: clients pick calls from a menu -------------------------------------------------- *)
@@ -242,6 +252,12 @@ Fifo == \A x, y \in Items : (imm[x] /\ imm[y] /\ seq[x] # 0 /\ seq[x] < seq[y] /
 \* timed items in due order (among items that were pending together)
 DueOrder == \A x, y \in Items : (~imm[x] /\ ~imm[y] /\ seq[x] # 0 /\ Picked(y) /\ seq[x] < cseq[y] /\ due[x] < due[y])
                                    => ist[x] # "pending"
+\* a timed item does not overtake an immediate item submitted before the timed item's due time ...
+CrossOrderTI == \A x, y \in Items : (imm[x] /\ ~imm[y] /\ seq[x] # 0 /\ Picked(y) /\ seq[x] < cseq[y] /\ eff[x] < due[y])
+                                   => ist[x] # "pending"
+\* ... and an immediate item does not overtake a timed item that is due earlier
+CrossOrderIT == \A x, y \in Items : (imm[x] /\ ~imm[y] /\ seq[y] # 0 /\ Picked(x) /\ seq[y] < cseq[x] /\ due[y] < due[x])
+                                   => ist[y] # "pending"
 \* no action before its due time
 NotEarly == \A x \in Items : runTh[x] # 0 => startT[x] >= due[x]
 \* an item one of whose cancels returned before the loop picked it never runs
@@ -256,6 +272,6 @@ Quiet == \A t \in Threads : pend[t] = NoCall
 \* liveness of the abstract object (FairSpec): nothing pending and due is left behind unless disposed
 NoLostWakeup == \A x \in Items : (ist[x] = "pending" /\ due[x] <= MaxT) ~> (ist[x] # "pending" \/ disposed)
 
-DesignInvs == TypeOK /\ Serial /\ OneThread /\ Fifo /\ DueOrder /\ NotEarly /\ CancelledNeverRuns
+DesignInvs == TypeOK /\ Serial /\ OneThread /\ Fifo /\ DueOrder /\ CrossOrderTI /\ CrossOrderIT /\ NotEarly /\ CancelledNeverRuns
               /\ NoRunAfterDisposeReturned /\ RefusedOnlyDisposed /\ ThreadForPending
 ================================================================================
